@@ -124,6 +124,25 @@ static bool setting_chars_ok(const std::string &s) {
   return true;
 }
 
+bool is_curated_malformed(const std::string &setting);   // gen.cc
+// Numeric parameter fields as crypt(5) documents them: "rounds=" of $5$/$6$/$md5 is an unsigned decimal number,
+// the bcrypt cost is exactly two decimal digits.  Anything else in such a field is a malformed parameter,
+// which the statement lists as a must-fail class.  (sha1crypt's iteration field is deliberately not judged:
+// the unchanged tree accepts "+5" and "05" there, see DESIGN 6.)
+static bool numeric_field_malformed(const std::string &s) {
+  auto field_bad = [&](size_t from) {
+    size_t e = s.find('$', from); if (e == std::string::npos) e = s.size();
+    if (e == from) return true;
+    for (size_t i = from; i < e; i++) if (s[i] < '0' || s[i] > '9') return true;
+    return false;
+  };
+  if (!s.compare(0, 10, "$5$rounds=") || !s.compare(0, 10, "$6$rounds=")) return field_bad(10);
+  if (!s.compare(0, 12, "$md5,rounds=")) return field_bad(12);
+  if (s.size() >= 4 && s[0] == '$' && s[1] == '2' && strchr("abxy", s[2]) && s[3] == '$')
+    return !(s.size() >= 7 && s[4] >= '0' && s[4] <= '9' && s[5] >= '0' && s[5] <= '9' && s[6] == '$');
+  return false;
+}
+
 // ================================================================= pattern set (C09)
 static inline uint64_t ld64(const void *p) { uint64_t v; memcpy(&v, p, 8); return v; }
 static inline uint64_t mixh(uint64_t x) { x *= 0x9e3779b97f4a7c15ULL; return x ^ (x >> 29); }
@@ -307,6 +326,7 @@ struct Run {
   // oracle families
   bool o_ref = false, o_c05 = false, o_c09 = false, o_c12 = false, o_c14 = false, o_c15 = false, o_c17 = false;
   std::vector<std::string> results;     // per-run result transcript (C07 double run)
+  std::vector<std::string> shared;      // read-only input strings shared by several tasks
   uint64_t hist_sig = 0xcbf29ce484222325ULL;
   bool nontrivial = false;
   PatSet *cur_pat = nullptr;            // phrase patterns of the op in flight (release hook)
@@ -552,6 +572,9 @@ static void exec_hash(Run &r, int t, int i, const J &op) {
   c.phrase = Bytes::from_json(op.at("ph"));
   c.setting = Bytes::from_json(op.at("st"));
   const char *php = c.phrase.cstr(), *stp = c.setting.cstr();
+  // read-only inputs shared between tasks (legal): the very same buffer is handed to several callers
+  if (op.has("phs") && (size_t)op.i("phs") < r.shared.size()) { c.phrase = Bytes(r.shared[(size_t)op.i("phs")]); php = r.shared[(size_t)op.i("phs")].c_str(); stat("probe_shared_readonly_input"); }
+  if (op.has("sts") && (size_t)op.i("sts") < r.shared.size()) { c.setting = Bytes(r.shared[(size_t)op.i("sts")]); stp = r.shared[(size_t)op.i("sts")].c_str(); stat("probe_shared_readonly_input"); }
   std::string stsrc = op.str("stsrc", "lit");
   if (stsrc == "gs" && tc.last_gensalt_static) {   // crypt_gensalt's static result passed straight on
     stp = tc.last_gensalt_static; c.setting = Bytes(std::string(stp));
@@ -638,7 +661,11 @@ static void exec_hash(Run &r, int t, int i, const J &op) {
   // ---------------- expected outcome
   bool size_ok = !(c.kind == "crypt_rn" && size < (long)CD);
   bool must_fail = !size_ok || c.phrase.null || c.setting.null || (!c.phrase.null && c.phrase.b.size() >= CRYPT_MAX_PASSPHRASE_SIZE) ||
-                   (!c.setting.null && !setting_chars_ok(c.setting.b)) || fv.effective > 0;
+                   (!c.setting.null && !setting_chars_ok(c.setting.b)) || fv.effective > 0 ||
+                   // classes the statement itself names, decided from the actual argument (never from a label):
+                   // '$'-introduced prefix that hashes.conf does not list as enabled; curated, certainly malformed parameters
+                   (!c.setting.null && !c.setting.b.empty() && c.setting.b[0] == '$' && !conf_for_prefix(c.setting.b)) ||
+                   (!c.setting.null && (is_curated_malformed(c.setting.b) || numeric_field_malformed(c.setting.b)));
   // a crypt_ra whose block could not be (re)allocated never reaches the hash
   RefOut exp;
   if (!must_fail) {
@@ -646,10 +673,6 @@ static void exec_hash(Run &r, int t, int i, const J &op) {
     if (exp.bad) crash_exit("machinery", ("refsrv: " + exp.raw).c_str());
   }
   bool exp_fail = must_fail || !exp.ok;
-  if (op.has("mustfail") && !must_fail && exp.ok && (r.o_c05)) {
-    // the statement itself names this class as one that cannot produce a hash; the reference must agree
-    violation(nullptr, "must-fail-class-accepted", t, i, vfmt("class '%s': setting \"%s\" was hashed by a history-free call", op.str("mustfail").c_str(), c.setting.null ? "NULL" : c.setting.b.c_str()));
-  }
 
   if (r.o_ref || r.o_c05 || r.o_c15) {
     if (exp_fail != c.failed) {
@@ -730,8 +753,13 @@ static void exec_hash(Run &r, int t, int i, const J &op) {
           violation(nullptr, "ra-protocol", t, i, vfmt("crypt_ra left *size=%d for a block of %zu bytes (need %zu <= *size <= block)", slot->size, b->size, CD));
         else {
           const struct crypt_data *nd = (const struct crypt_data *)slot->data;
-          if (!all_zero(nd->setting, sizeof nd->setting) || !all_zero(nd->input, sizeof nd->input))
-            violation(nullptr, "ra-not-zeroed", t, i, "crypt_ra grew the block but its setting/input fields are not zero-initialised");
+          // zero-initialised after growth: everything but the output field (which now holds the result or the token)
+          if (!all_zero(nd->setting, CD - offsetof(struct crypt_data, setting)))
+            violation(nullptr, "ra-not-zeroed", t, i, "crypt_ra grew the block but the new block is not zero-initialised outside its output field");
+          else {
+            size_t l = strnlen(nd->output, sizeof nd->output);
+            if (!all_zero(nd->output + l, sizeof nd->output - l)) stat("incidental_output_tail_not_zero_after_growth");
+          }
         }
         if (slot_before && slot->data != slot_before && MemLayer::get().find(slot_before) && !r.plan.at("env").i("realloc_move")) {}
       } else if (slot->data && !b) {
@@ -869,7 +897,8 @@ static void exec_gensalt(Run &r, int t, int i, const J &op) {
   }
 #endif
   // C09-5 / C12-7: the drawn bytes are wiped from the library's buffer after a successful draw
-  if (rb.null && (r.o_c09 || r.o_c12) && !failed && !draws.empty() && draws.back().bytes.size() >= 4) {
+  if (rb.null && (r.o_c09 || r.o_c12) && !draws.empty() && draws.back().bytes.size() >= 4) {
+    if (failed) stat("probe_entropy_wipe_checks_failing_call");
     const EntropyDraw &d = draws.back();
     stat("probe_entropy_wipe_checks");
     if (!all_zero(d.bytes.data(), d.bytes.size()) && mem_equal_raw(d.buf, d.bytes.data(), d.bytes.size()))
@@ -1115,6 +1144,8 @@ static RunOut run_plan(const J &plan, uint64_t fill_override, bool use_override)
   ev(vfmt("run prop=%s seed=%llu tasks=%d", p.c_str(), (unsigned long long)g_run_seed, r.ntasks));
   thr::begin_run(plan.at("schedule"), g_run_seed, r.ntasks);
 
+  for (auto &sj : plan.at("shared").a) r.shared.push_back(Bytes::from_json(sj).b);
+  for (auto &sh : r.shared) { sh.reserve(sh.size() + 1); thr::region_add(sh.c_str(), sh.size() + 1, -1, "shared read-only input"); }
   // caller-side objects
   for (int t = 0; t < r.ntasks; t++) {
     const J &tj = plan.at("tasks").a[(size_t)t];
@@ -1146,6 +1177,7 @@ static RunOut run_plan(const J &plan, uint64_t fill_override, bool use_override)
   }
   { std::vector<std::pair<void *, Block>> rest; for (auto &kv : ml.live) rest.emplace_back((void *)kv.first, kv.second);
     for (auto &e : rest) ml.h_free(e.first); }
+  for (auto &sh : r.shared) thr::region_del(sh.c_str());
   J thrinfo = thr::end_run();
   for (int t = 0; t < r.ntasks; t++) { for (auto &o : r.tc[t].objs) { thr::region_del(o.base); free(o.base); } if (!r.tc[t].slots.empty()) thr::region_del(r.tc[t].slots.data()); }
   g_release_hook = nullptr;
@@ -1323,6 +1355,7 @@ int main(int argc, char **argv) {
     gettimeofday(&t1, nullptr);
     r["ms"] = (long long)((t1.tv_sec - t0.tv_sec) * 1000 + (t1.tv_usec - t0.tv_usec) / 1000);
     if (!r.i("ok") || (s - a) / step < 3) r["plan"] = plan;   // violating plans, and a few samples for the evidence
+    if (g_log_events) { J e = J::arr(); for (auto &l : g_event_text) e.push(l); r["events_text"] = e; }
     emit(r);
   }
   J fin = J::obj(); fin["done"] = true; fin["ref_queries"] = (long long)RefClient::get().queries; fin["ref_forks"] = (long long)RefClient::get().forks;
